@@ -35,16 +35,22 @@ def _ref_symvar_enum(n):
     # fb f1 declares an enum-typed variable cur and nm0; after `cur := green` the condition of an IF uses nm1
     return {'P0015'} if n[1] not in (n[0], 'cur', 'f1') else set()
 def _ref_task(n): return {'P0011'} if n[1] != n[0] else set()
+def _ref_fbcall(n):
+    # program main declares instance nm0 and invokes nm1; function block logger declares instance nm2 and invokes nm3.
+    # P0021 iff an invoked name is not an instance variable of its own POU
+    return {'P0021'} if (n[1] != n[0] or n[3] != n[2]) else set()
 
 RULES = {
     'struct_element_unique_names': dict(mod='rule_decl_struct_element_unique_names', k=3, alpha=['a', 'b', 'c'], ref=_ref_struct,
         text='TYPE\n  st : STRUCT\n    nm0 : INT;\n    nm1 : INT;\n    nm2 : INT;\n  END_STRUCT;\nEND_TYPE\n'),
     'enumeration_values_unique': dict(mod='rule_enumeration_values_unique', k=3, alpha=['a', 'b', 'c'], ref=_ref_enum,
         text='TYPE\n  clr : (nm0, nm1, nm2) := nm0;\nEND_TYPE\n'),
-    'use_declared_symbolic_var': dict(mod='rule_use_declared_symbolic_var', k=5, alpha=['a', 'b', 'c'], ref=_ref_symvar,
+    'use_declared_symbolic_var': dict(mod='rule_use_declared_symbolic_var', k=5, alpha=['a', 'b', 'c'], ref=_ref_symvar, swap=('f1', 'f2'),
         text='FUNCTION_BLOCK f1\nVAR\n  nm0 : INT;\n  nm1 : INT;\nEND_VAR\n  nm2 := 1;\nEND_FUNCTION_BLOCK\nFUNCTION_BLOCK f2\nVAR\n  nm3 : INT;\nEND_VAR\n  nm4 := 2;\nEND_FUNCTION_BLOCK\n'),
     'use_declared_symbolic_var_after_enum_assignment': dict(mod='rule_use_declared_symbolic_var', k=2, alpha=['a', 'b'], ref=_ref_symvar_enum,
         text='TYPE\n  color : (red, green) := red;\nEND_TYPE\nFUNCTION_BLOCK f1\nVAR\n  cur : color := red;\n  nm0 : BOOL;\nEND_VAR\n  cur := green;\n  IF nm1 THEN\n    cur := red;\n  END_IF;\nEND_FUNCTION_BLOCK\n'),
+    'function_block_invocation': dict(mod='rule_function_block_invocation', k=4, alpha=['a', 'b'], ref=_ref_fbcall, swap=('main', 'logger'), codes={'P0021'},
+        text='FUNCTION_BLOCK callee\nVAR_INPUT\n  in1 : BOOL;\nEND_VAR\nEND_FUNCTION_BLOCK\nPROGRAM main\nVAR\n  nm0 : callee;\nEND_VAR\n  nm1(in1 := TRUE);\nEND_PROGRAM\nFUNCTION_BLOCK logger\nVAR\n  nm2 : callee;\nEND_VAR\n  nm3(in1 := TRUE);\nEND_FUNCTION_BLOCK\n'),
     'program_task_definition_exists': dict(mod='rule_program_task_definition_exists', k=2, alpha=['a', 'b'], ref=_ref_task,
         text='CONFIGURATION cfg\n  RESOURCE res ON PLC\n    TASK nm0(INTERVAL := T#100ms, PRIORITY := 1);\n    PROGRAM inst WITH nm1 : prog;\n  END_RESOURCE\nEND_CONFIGURATION\nPROGRAM prog\nVAR\n  x : INT;\nEND_VAR\nEND_PROGRAM\n'),
 }
@@ -53,12 +59,28 @@ def _subst_text(text, names):
     for i in range(len(names) - 1, -1, -1): text = text.replace('nm%d' % i, names[i])
     return text
 
+def _elem_name(M, e):
+    stack = [e]
+    while stack:
+        x = stack.pop()
+        if isinstance(x, Str): return x.conc()
+        if isinstance(x, (Agg, EnumV)): stack.extend(reversed(x.f))
+        elif isinstance(x, VecV): stack.extend(reversed(x.items))
+        elif isinstance(x, Ref): stack.append(M.get(x.cell, x.path))
+    return None
+
 def _rule_job(job):
-    rname, = job
-    ctx = _CTX; part = Part()
+    rname = job[0]; swapped = len(job) > 1 and job[1]
+    ctx = _CTX; part = Part(); part.verdicts = {}
     spec = RULES[rname]
     P = ctx.program()
     lib0 = resolve_concrete(ctx, spec['text'])
+    if swapped:
+        # the same declarations with two mutually independent POUs exchanged (another valid topological order)
+        els = lib0.f[0].items; M0 = Machine(P)
+        idx = [i for i, e in enumerate(els) if (_elem_name(M0, e) or '').lower() in spec['swap']]
+        if len(idx) != 2: part.inconc('swap targets not found in the resolved library'); return part
+        els[idx[0]], els[idx[1]] = els[idx[1]], els[idx[0]]
     key = P.find_fn('ironplc-analyzer', spec['mod'] + '::apply')
     M = Machine(P, max_steps=50_000_000)
     sym = {}
@@ -90,6 +112,8 @@ def _rule_job(job):
             if r != z3.sat: continue
             names = list(names)
             src = _subst_text(spec['text'], names); want = spec['ref'](names)
+            part.verdicts[tuple(names)] = 'panic' if pr.panic else tuple(sorted(got))
+            if swapped: continue
             if pr.panic:
                 part.add('C02/K1/%s/panic' % rname, 'rule panics: %s' % pr.panic.msg, {'source': src}, ('rule', (src, sorted(want), rname))); break
             if got != want:
@@ -130,7 +154,7 @@ def _replay_rule_one(ctx, src, want, rname):
         if 'panic' in r: return True, r
         if 'parse_error' in r: return None, r
         codes = set(d['code'] for d in r.get('diagnostics', []))
-        rule_codes = {'struct_element_unique_names': {'P0003'}, 'enumeration_values_unique': {'P0005'}, 'use_declared_symbolic_var': {'P0015'}, 'use_declared_symbolic_var_after_enum_assignment': {'P0015'}, 'program_task_definition_exists': {'P0011'}}[rname]
+        rule_codes = RULES[rname].get('codes') or {'struct_element_unique_names': {'P0003'}, 'enumeration_values_unique': {'P0005'}, 'use_declared_symbolic_var': {'P0015'}, 'use_declared_symbolic_var_after_enum_assignment': {'P0015'}, 'program_task_definition_exists': {'P0011'}}[rname]
         return (codes & rule_codes) != set(want), {'source': src, 'codes': sorted(codes), 'expected_rule_codes': want}
 
 @kernel('K1 rules.decision_vs_reference')
@@ -143,7 +167,7 @@ def k1(ctx, kr):
     kr.functions = fn_paths(P, getattr(kr, '_enc', set()))
     kr.assumptions = ['templates are resolved by the real resolve_types (run concretely in the interpreter) before names are made symbolic; names are lower-case (case folding: C08)']
     kr.exhaustive = True
-    kr.outside = ['rules without a kernel here (function-block invocation, enumerated value use, CONSTANT rules, unsupported stdlib types); interaction of rules on whole programs']
+    kr.outside = ['rules without a kernel here (function-block parameter checks, enumerated value use, CONSTANT rules, unsupported stdlib types); interaction of rules on whole programs']
 
 
 # ---------------------------------------------------------------------------------------------- K3 stage composition
